@@ -332,3 +332,176 @@ func CanonSet(bss []M) string {
 	sort.Strings(ss)
 	return "[" + strings.Join(ss, ",") + "]"
 }
+
+// ---- reference enumerator of embeddings (C02) --------------------------------
+
+func copyM(m M) M {
+	n := make(M, len(m)+1)
+	for k, v := range m {
+		n[k] = v
+	}
+	return n
+}
+
+func sortedKeys(m M) []string {
+	ks := make([]string, 0, len(m))
+	for k := range m {
+		ks = append(ks, k)
+	}
+	sort.Strings(ks)
+	return ks
+}
+
+// Embeddings returns every binding set under which the pattern, instantiated,
+// is contained in the message, by plain backtracking (no optimisation):
+// variables are bound on first meeting and re-used as sub-patterns after;
+// map keys are threaded in sorted order; array elements are matched to
+// distinct message elements; an optional variable stays unbound only where
+// nothing is there for it.  Inequality variables are not handled (C02 does
+// not generate them).
+func Embeddings(p, m interface{}, bs M) []M {
+	switch pv := p.(type) {
+	case nil:
+		if m == nil {
+			return []M{bs}
+		}
+		return nil
+	case bool:
+		if y, ok := m.(bool); ok && y == pv {
+			return []M{bs}
+		}
+		return nil
+	case float64:
+		if y, ok := m.(float64); ok && y == pv {
+			return []M{bs}
+		}
+		return nil
+	case string:
+		if !IsVar(pv) {
+			if y, ok := m.(string); ok && y == pv {
+				return []M{bs}
+			}
+			return nil
+		}
+		if pv == "?" {
+			return []M{bs}
+		}
+		if val, bound := bs[pv]; bound {
+			return Embeddings(val, m, bs)
+		}
+		n := copyM(bs)
+		n[pv] = m
+		return []M{n}
+	case map[string]interface{}:
+		mm, ok := m.(map[string]interface{})
+		if !ok {
+			return nil
+		}
+		if len(pv) == 0 {
+			return []M{bs}
+		}
+		if len(pv) == 1 {
+			for k, v := range pv {
+				if IsVar(k) {
+					var out []M
+					for _, fk := range sortedKeys(mm) {
+						for _, b1 := range Embeddings(k, fk, bs) {
+							out = append(out, Embeddings(v, mm[fk], b1)...)
+						}
+					}
+					return out
+				}
+			}
+		}
+		cur := []M{bs}
+		for _, k := range sortedKeys(pv) {
+			v := pv[k]
+			mv, have := mm[k]
+			if !have {
+				if IsOptional(v) {
+					continue
+				}
+				return nil
+			}
+			var next []M
+			for _, b := range cur {
+				next = append(next, Embeddings(v, mv, b)...)
+			}
+			if len(next) == 0 {
+				return nil
+			}
+			cur = next
+		}
+		return cur
+	case []interface{}:
+		ma, ok := m.([]interface{})
+		if !ok {
+			return nil
+		}
+		// constants and structured elements first (in order), the variable last
+		var elems []interface{}
+		var variable interface{}
+		for _, e := range pv {
+			if IsVar(e) {
+				variable = e
+			} else {
+				elems = append(elems, e)
+			}
+		}
+		type st struct {
+			bs   M
+			used []bool
+		}
+		cur := []st{{bs, make([]bool, len(ma))}}
+		for _, e := range elems {
+			var next []st
+			for _, s := range cur {
+				for j := range ma {
+					if s.used[j] {
+						continue
+					}
+					for _, b := range Embeddings(e, ma[j], s.bs) {
+						u := append([]bool{}, s.used...)
+						u[j] = true
+						next = append(next, st{b, u})
+					}
+				}
+			}
+			if len(next) == 0 {
+				return nil
+			}
+			cur = next
+		}
+		var out []M
+		if variable == nil {
+			for _, s := range cur {
+				out = append(out, s.bs)
+			}
+			return out
+		}
+		for _, s := range cur {
+			for j := range ma {
+				if s.used[j] {
+					continue
+				}
+				out = append(out, Embeddings(variable, ma[j], s.bs)...)
+			}
+		}
+		if len(out) == 0 && IsOptional(variable) {
+			for _, s := range cur {
+				out = append(out, s.bs)
+			}
+		}
+		return out
+	}
+	return nil
+}
+
+// CanonKeys returns the distinct canonical renderings of a list of binding sets.
+func CanonKeys(bss []M) map[string]bool {
+	out := map[string]bool{}
+	for _, b := range bss {
+		out[Canon(b)] = true
+	}
+	return out
+}
